@@ -194,6 +194,10 @@ def call_ext(I: Any, name: str, args: List[Term], kwargs: Dict[str, Term], st: A
             return ("class", I.prog.cls(v[1].cls))
         if v[0] == "sym" and isinstance(v[2], tuple) and v[2] and v[2][0] == "enum":
             return ("class", I.prog.cls(v[2][1]))
+        if v[0] == "sym" and isinstance(v[2], tuple) and v[2] and v[2][0] in ("set", "list"):
+            return ("builtin", v[2][0])
+        if v[0] == "sym" and v[2] in ("str", "int", "bytes", "bool", "float"):
+            return ("builtin", v[2])
         if v[0] == "obj" and st.heap[v[1]].kind == "set":
             return ("builtin", "set")
         if v[0] == "obj" and st.heap[v[1]].kind == "list":
